@@ -170,8 +170,28 @@ def run_rust_check(pid, tier, replay, start, level, plan, timeout=None):
         binname = doc.get("bin") or [b for v, b, _ in plan][0]
         plan = [(variant, binname, [])]
         by_variant = {variant: {binname}}
-    for variant, bins in by_variant.items():
-        build(variant, sorted(bins))
+    if len(by_variant) > 1:
+        # the variants have separate target directories: build them side by side
+        import threading
+        render_manifests()
+        errors = []
+
+        def one(variant, bins):
+            try:
+                build(variant, sorted(bins))
+            except SystemExit as e:
+                errors.append(e.code)
+
+        threads = [threading.Thread(target=one, args=(v, b)) for v, b in by_variant.items()]
+        for t in threads:
+            t.start()
+        for t in threads:
+            t.join()
+        if errors:
+            sys.exit(errors[0])
+    else:
+        for variant, bins in by_variant.items():
+            build(variant, sorted(bins))
     worst = 0
     parts = []
     for idx, (variant, binname, extra) in enumerate(plan):
